@@ -130,6 +130,9 @@ class Path:
             return not self.truth(test.operand)
         if isinstance(test, ast.Constant):
             return bool(test.value)
+        if isinstance(test, ast.Call) and isinstance(test.func, ast.Name) and test.func.id == "isinstance" and len(test.args) == 2:
+            if self.text(test.args[1]) == "Tuple()":
+                return False            # isinstance(x, ()) is False for every x
         return self.decide(self.text(test))
 
     def oid(self, name):
